@@ -195,3 +195,15 @@ package config
 //@ ensures [locals-under-local] result != nil && result.Variables["local"] == result_of(cty.ObjectVal, 0)
 //@ ensures [documented-collection-functions] has(result.Functions, "coalesce") && has(result.Functions, "coalescelist") && has(result.Functions, "compact") && has(result.Functions, "concat") && has(result.Functions, "distinct") && has(result.Functions, "element") && has(result.Functions, "flatten") && has(result.Functions, "index") && has(result.Functions, "keys") && has(result.Functions, "lookup") && has(result.Functions, "merge") && has(result.Functions, "reverse") && has(result.Functions, "slice") && has(result.Functions, "sort") && has(result.Functions, "split") && has(result.Functions, "values") && has(result.Functions, "zipmap")
 //@ ensures [each-name-is-its-own-function] result.Functions["coalesce"] == stdlib.CoalesceFunc && result.Functions["coalescelist"] == stdlib.CoalesceListFunc && result.Functions["compact"] == stdlib.CompactFunc && result.Functions["concat"] == stdlib.ConcatFunc && result.Functions["distinct"] == stdlib.DistinctFunc && result.Functions["element"] == stdlib.ElementFunc && result.Functions["flatten"] == stdlib.FlattenFunc && result.Functions["index"] == stdlib.IndexFunc && result.Functions["keys"] == stdlib.KeysFunc && result.Functions["lookup"] == stdlib.LookupFunc && result.Functions["merge"] == stdlib.MergeFunc && result.Functions["reverse"] == stdlib.ReverseListFunc && result.Functions["slice"] == stdlib.SliceFunc && result.Functions["sort"] == stdlib.SortFunc && result.Functions["split"] == stdlib.SplitFunc && result.Functions["values"] == stdlib.ValuesFunc && result.Functions["zipmap"] == stdlib.ZipmapFunc
+
+// Every variable source is initialised, in the listed order, and registered under its own name; the first failure is returned.
+//@ func ExtractVariableStorage
+//@ props C13 C15 C16
+//@ nilsafe
+//@ requires cfg != nil
+//@ env forall(k, 0, len(cfg.VariableSources), cfg.VariableSources[k] != nil)
+//@ at return vs.NewVariableStorage assume [a-new-storage] result_of(vs.NewVariableStorage, 0) != nil
+//@ loop 0 invariant storage != nil && imp(calls(source.Init) > 0, result_of(source.Init, 0) == nil) && calls(storage.AddSource) == rangeidx
+//@ at call storage.AddSource assert [under-its-own-name-with-its-own-variables] arg(name) == result_of(source.GetName, 0) && arg(variables) == result_of(source.GetVariables, 0)
+//@ ensures [a-failing-source-is-an-error] imp(calls(source.Init) > 0 && result_of(source.Init, 0) != nil, result1 == result_of(source.Init, 0))
+//@ ensures [every-source-is-registered] imp(result1 == nil, calls(storage.AddSource) == len(cfg.VariableSources))
